@@ -58,6 +58,7 @@ class Model:
 
 class EHistCheck(Check):
     level = "model_checking"
+    min_distinct_outcomes = 1       # the vacuity guard of an E-hist check is on model states, see finish()
     model = None
     quick_depth = 5
     thorough_depth = 12
@@ -184,6 +185,8 @@ class EHistCheck(Check):
                                    "depth_bound": sm.get("depth_bound"), "second_witness_replays": sm.get("second_witness_replays", 0),
                                    "rejected_by_compiler": stats["tags"].get("rejected", 0)}
         errs = []
+        if sm.get("states", 0) < 10:
+            errs.append(f"vacuity: only {sm.get('states', 0)} model states explored")
         if stats["tags"].get("rejected", 0) > 0:
             errs.append("vacuity: some generated histories were rejected by the compiler: " +
                         str({k: v for k, v in stats["tags"].items() if k.startswith("rej-")}))
